@@ -389,6 +389,9 @@ def fixed_checks(rep):
         ("g(x >= 2)", lambda a, k: list(a[0]) == [False, True, True, True]),
         ("g(x != z)", lambda a, k: list(a[0]) == [True, True, True, True]),
         ("g(2 ** 3, 7 / 2, 1 - 2 - 3)", lambda a, k: a == (8, 3.5, -4)),
+        # a '~' inside a string literal is part of the string
+        ("g(x, '~', s='a~b')", lambda a, k: a[1] == "~" and k == {"s": "a~b"}),
+        ("g(x, '~~', \"~\")", lambda a, k: a[1] == "~~" and a[2] == "~"),
         # integers are exact however long they are (more than 53 bits)
         ("g(x, 9007199254740993, k=1700000000000000123)", lambda a, k: a[1] == 9007199254740993 and type(a[1]) is int and k == {"k": 1700000000000000123}),
         ("g(x - 123456789012345678901)", lambda a, k: a[0].iloc[0] == 1 - 123456789012345678901),
